@@ -1345,7 +1345,10 @@ def gen_history(rng, backend):
                 ops.append(["S", rng.choice([OP_PING, OP_PONG]), 0, rng.getrandbits(32), tagb.hex()])
                 continue
             body = (common * (n // len(common) + 1))[:n]
-            ops.append(["S", OP_BINARY, 0, rng.getrandbits(32), (tagb + body).hex()])
+            # a per-message `compress=` override on some sends: its private compressor must not let another
+            # sender's frame overtake it (the shared compressor is reset when the override message starts)
+            ov = rng.choice([15, 15, 12, 9]) if rng.random() < 0.25 else 0
+            ops.append(["S", OP_BINARY, ov, rng.getrandbits(32), (tagb + body).hex()])
         senders.append(ops)
     steps = []
     order = list(range(nsend))
@@ -1378,7 +1381,8 @@ def gen_script(rng, backend, i):
         if kind == "ping":
             return ["S", OP_PING, 0, 0, tagb.hex()]
         n = rng.choice([16385, 16400, 17000]) if kind == "big" else rng.choice([0, 5, 300, 16384 - 6])
-        return ["S", OP_BINARY, 0, 0, (tagb + (common * (n // len(common) + 1))[:n]).hex()]
+        ov = rng.choice([15, 15, 12, 9]) if i % 4 != 3 and rng.random() < 0.25 else 0
+        return ["S", OP_BINARY, ov, 0, (tagb + (common * (n // len(common) + 1))[:n]).hex()]
     mode = i % 4
     if mode == 3:
         # server side, nothing negotiated: a message far above the transport's high-water mark, so that writing is
